@@ -29,9 +29,9 @@ struct FilterS { std::string pat; bool strict, invert; };
 struct PluginS { std::string name; bool enabled, err; };
 struct Prog {
     int repeat; bool reverse; bool shuffle; long seed; bool runIgnored;
-    std::vector<long> draws; bool haveDraws; bool api;
+    std::vector<long> draws; bool haveDraws; bool api; std::string list;
     std::vector<FilterS> gf, nf; std::vector<PluginS> plugins; std::vector<TestS> tests;
-    Prog() : repeat(1), reverse(false), shuffle(false), seed(1), runIgnored(false), haveDraws(false), api(false) {}
+    Prog() : repeat(1), reverse(false), shuffle(false), seed(1), runIgnored(false), haveDraws(false), api(false), list("none") {}
 };
 static Prog* P;
 static const char* PHN[3] = {"setup", "body", "teardown"};
@@ -116,12 +116,13 @@ public:
     }
 };
 
+static std::string g_plainText;      // everything printed outside the captured failure / summary texts (the list modes print here)
 class RecOutput : public TestOutput
 {
 public:
     std::string cap; bool capturing; int repNo; int lastTest;
     RecOutput() : capturing(false), repNo(0), lastTest(0) {}
-    void printBuffer(const char* s) CPPUTEST_OVERRIDE { if (capturing) cap += s; }
+    void printBuffer(const char* s) CPPUTEST_OVERRIDE { if (capturing) cap += s; else g_plainText += s; }
     void flush() CPPUTEST_OVERRIDE {}
     void printTestsStarted() CPPUTEST_OVERRIDE
     {
@@ -294,7 +295,7 @@ static void emitProg()
     fprintf(out, "],\"nf\":[");
     for (size_t i = 0; i < P->nf.size(); i++)
         fprintf(out, "%s{\"pat\":%s,\"strict\":%s,\"invert\":%s}", i ? "," : "", chars(P->nf[i].pat).c_str(), P->nf[i].strict ? "true" : "false", P->nf[i].invert ? "true" : "false");
-    fprintf(out, "],\"plugins\":[");
+    fprintf(out, "],\"list\":%s,\"plugins\":[", vh_jstr(P->list).c_str());
     for (size_t i = 0; i < P->plugins.size(); i++)
         fprintf(out, "%s{\"name\":%s,\"enabled\":%s,\"err\":%s}", i ? "," : "", vh_jstr(P->plugins[i].name).c_str(), P->plugins[i].enabled ? "true" : "false", P->plugins[i].err ? "true" : "false");
     fprintf(out, "]},\"cap\":%d,\"maxset\":%d}\n", CppUTestVerif_JmpBufCapacity(), (int) SetPointerPlugin::MAX_SET);
@@ -358,6 +359,7 @@ static void runProgram()
     if (P->reverse) args.push_back("-b");
     if (P->shuffle) { snprintf(b, sizeof b, "-s%ld", P->seed); args.push_back(b); }
     if (P->runIgnored) args.push_back("-ri");
+    if (P->list != "none") args.push_back("-" + P->list);
     for (size_t i = 0; i < P->gf.size(); i++) { args.push_back(std::string("-") + (P->gf[i].invert ? "x" : "") + (P->gf[i].strict ? "s" : "") + "g"); args.push_back(P->gf[i].pat); }
     for (size_t i = 0; i < P->nf.size(); i++) { args.push_back(std::string("-") + (P->nf[i].invert ? "x" : "") + (P->nf[i].strict ? "s" : "") + "n"); args.push_back(P->nf[i].pat); }
     std::vector<const char*> av; for (size_t i = 0; i < args.size(); i++) av.push_back(args[i].c_str());
@@ -365,7 +367,7 @@ static void runProgram()
     int (*savedRand)(void) = PlatformSpecificRand; void (*savedSrand)(unsigned int) = PlatformSpecificSrand;
     if (P->haveDraws) { drawPos = 0; PlatformSpecificRand = forcedRand; PlatformSpecificSrand = noSrand; }
     for (int l = 0; l <= NLOC; l++) targets[l] = NULL;
-    jmpBase = CppUTestVerif_JmpBufIndex(); g_rep = 0;
+    jmpBase = CppUTestVerif_JmpBufIndex(); g_rep = 0; g_plainText.clear();
     int rv;
     if (P->api) rv = runThroughApi(registry);
     else {
@@ -373,6 +375,30 @@ static void runProgram()
         rv = runner.runAllTestsMain();
     }
     PlatformSpecificRand = savedRand; PlatformSpecificSrand = savedSrand;
+    if (P->list != "none") {
+        // the list output, tokenised: -lg "g g g", -ln "g.n g.n", -ll "g.n.file.line\n" per test
+        fprintf(out, "{\"op\":\"list\",\"mode\":%s,\"items\":[", vh_jstr(P->list).c_str());
+        std::vector<std::string> toks; std::string curTok;
+        for (size_t i = 0; i <= g_plainText.size(); i++) {
+            char c = i < g_plainText.size() ? g_plainText[i] : ' ';
+            if (c == ' ' || c == '\n') { if (!curTok.empty()) toks.push_back(curTok); curTok.clear(); } else curTok += c;
+        }
+        for (size_t i = 0; i < toks.size(); i++) {
+            const std::string& t = toks[i];
+            if (P->list == "lg") fprintf(out, "%s%s", i ? "," : "", chars(t).c_str());
+            else {
+                size_t d1 = t.find('.');
+                std::string g = t.substr(0, d1), rest = d1 == std::string::npos ? "" : t.substr(d1 + 1);
+                if (P->list == "ln") fprintf(out, "%s{\"g\":%s,\"n\":%s}", i ? "," : "", chars(g).c_str(), chars(rest).c_str());
+                else {
+                    size_t d2 = rest.find('.'); std::string n = rest.substr(0, d2), fl = d2 == std::string::npos ? "" : rest.substr(d2 + 1);
+                    size_t d3 = fl.rfind('.'); int tix = 0; sscanf(fl.c_str(), "T%d.cpp", &tix);
+                    fprintf(out, "%s{\"g\":%s,\"n\":%s,\"t\":%d,\"line\":%ld}", i ? "," : "", chars(g).c_str(), chars(n).c_str(), tix, d3 == std::string::npos ? -1L : atol(fl.c_str() + d3 + 1));
+                }
+            }
+        }
+        fprintf(out, "]}\n");
+    }
     fprintf(out, "{\"op\":\"ret\",\"value\":%d,\"jmp\":%d}\n", rv, relJmp());
 
     for (size_t i = 0; i < plugins.size(); i++) delete plugins[i];
@@ -396,6 +422,7 @@ int main(int argc, char** argv)
             P->repeat = atoi(f[1].c_str()); P->reverse = f[2] == "1"; P->shuffle = f[3] != "-"; P->seed = P->shuffle ? atol(f[3].c_str()) : 1;
             P->runIgnored = f[4] == "1";
             P->api = f.size() > 6 && f[6] == "api";
+            if (f.size() > 7 && !f[7].empty()) P->list = f[7];
             if (f[5] != "-") { P->haveDraws = true; std::vector<std::string> d = vh_split(f[5], ','); for (size_t i = 0; i < d.size(); i++) if (!d[i].empty()) P->draws.push_back(atol(d[i].c_str())); }
         }
         else if ((f[0] == "gf" || f[0] == "nf") && f.size() >= 4) { FilterS x; x.pat = f[1]; x.strict = f[2] == "1"; x.invert = f[3] == "1"; (f[0] == "gf" ? P->gf : P->nf).push_back(x); }
